@@ -157,6 +157,10 @@ def _closure_value(ex, st, stmt):
     attributes env:<name> (read when the closure's own contract is related to the enclosing function's, C05/C14)."""
     w = st.alloc(T_FUNC, "closure")
     st.put("attr:__def__", w, S("async" if isinstance(stmt, ast.AsyncFunctionDef) else "sync"))
+    # which of the nested definitions of that name this is (the ordinal the unit addresses use: wrapper[0], wrapper[1], ...)
+    from pyvc.extract import _children_defs
+    same = [d for d in _children_defs(ex.unit_node.body) if d.name == stmt.name]
+    st.put("attr:__defidx__", w, z3.IntVal(next((i for i, d in enumerate(same) if d is stmt), -1)))
     # a `def` creates a plain function object
     st.assume(z3.Function("inspect_isfunction", I, B)(w), z3.Not(ISINST(w, clsref("staticmethod"))), z3.Not(ISINST(w, clsref("classmethod"))))
     for a in TRACKED_DICT + ["__wrapped__"]:
